@@ -8,6 +8,7 @@ PROPS = {
         'level': 'proof',
         'trusted_base': COMMON_TB,
         'assumptions': [
+            'added after seeding round 6 (BOUNDED): strict prefixes of block encodings (the bare 80-byte header among them) and of headers raise the truncation error; 80 header bytes followed by anything raise the extra-data error',
             'added after seeding round 4 (BOUNDED): strict prefixes of generated transaction encodings raise the truncation error (tx_prefix_truncated, 700 per run) and extensions the extra-data error (tx_extension_refused); a mutable transaction serialised and hashed before and edited since serialises to the prescribed bytes of its current field values (mutable_tx_reserialized; the target is resolved through the live class, so a serialize() override is met)',
             'struct.pack/unpack of fixed-width integers = abstract little-endian codec le_n/unle_n with inverse axioms (assumed built-in contract, conformance-tested)',
             'io.BytesIO modelled as (data, pos) with read/write/tell/seek/getvalue contracts; writes only at end of buffer',
@@ -111,10 +112,12 @@ PROPS = {
         'explanation': 'bounded sign/verify/edit units',
     },
     'C06': {
-        'modules': ['contracts.c06'],
+        'modules': ['contracts.c06', 'contracts.c05'],
         'level': 'proof',
         'trusted_base': COMMON_TB,
         'assumptions': [
+            "added after seeding round 6 (BOUNDED): the library's own pure-Python RIPEMD-160 (bitcoin.core.contrib.ripemd160, behind OP_RIPEMD160 / OP_HASH160) equals hashlib's RIPEMD-160 for every length 0..200 and sampled longer inputs; contract expressions use hashlib's implementation as the reference when the interpreter has one",
+            'the C05 contract checksig_plumbing (Python part of _CheckSig) is verified in this check too, since every CHECKSIG/CHECKMULTISIG obligation rests on the assumed _CheckSig contract',
             'ASSUMED: _CheckSig = one uninterpreted predicate checksig_ok(sig, pubkey, subscript, index), the same symbol in code and reference (OpenSSL behind ctypes; DER/pubkey leniency out of scope as the property says)',
             'ASSUMED for this property: FindAndDelete = uninterpreted function fad (its CODESEPARATOR instance is specified under C03)',
             'ASSUMED contract bn2vch = num_enc (minimal script-number encoder), unproved (contracts/c08_wip.py)',
@@ -135,10 +138,11 @@ PROPS = {
         'explanation': 'interpreter step contracts',
     },
     'C07': {
-        'modules': ['contracts.c06'],
+        'modules': ['contracts.c06', 'contracts.c05'],
         'level': 'proof',
         'trusted_base': COMMON_TB,
         'assumptions': [
+            "added after seeding round 6: the assumption '_CheckSig returns a boolean and never raises' used at call sites is no longer bare - the C05 contract checksig_plumbing (the Python part of _CheckSig: no exception for any signature bytes, result defined by the OpenSSL calls, which stay assumed) is verified in this check too",
             'ASSUMED contract for _CheckSig (OpenSSL behind ctypes): returns a boolean, never raises, False for an empty signature',
             'ASSUMED contract bn2vch = minimal script-number encoder (contracts/c08_wip.py: undecided)',
             'byte strings are shorter than 2^32 bytes (otherwise struct.pack(">I", len) in the number codec could raise)',
@@ -160,6 +164,7 @@ PROPS = {
         'level': 'proof',
         'trusted_base': COMMON_TB,
         'assumptions': [
+            'added after seeding round 6: coerce_bytes - a byte string of any content becomes the shortest push of exactly those bytes (proved)',
             'consumers of raw_iter() are verified against the step contract of the tokeniser (unit raw_iter_step proves that contract on the generator body); the link is the loop rule in pyvc/scriptiter.py',
             'vch2bn proved for encodings of up to 8 bytes (covers the interpreter, which rejects operands above 4 bytes); bn2vch is NOT proved (contracts/c08_wip.py, solver timeouts)',
             'NOT PROVED: building a script from a symbolic-length heterogeneous token list and the cooked iteration round trip; only the per-token encoders (encode_op_pushdata, encode_op_n) and decoders are under contract',
@@ -179,6 +184,7 @@ PROPS = {
         'level': 'proof',
         'trusted_base': COMMON_TB,
         'assumptions': [
+            'added after seeding round 6: freeze_tx_tuples_2_1 - the immutable snapshot freezes element by element also when the mutable transaction holds its inputs/outputs in tuples',
             'heap model: objects passed with heap=True are separate heap cells; lists of heap objects only with a concrete '
             'length (copy-constructor and signature-hash frame contracts are for 2 inputs and 1 output)',
             'object.__setattr__ / __delattr__ / list / tuple built-ins modelled by pyvc (a symbolic attribute name is compared with every slot of the MRO, one branch per slot; corrected after seeding round 3: it used to be treated as matching no slot, which made a slot-dependent guard look total)',
@@ -223,6 +229,7 @@ PROPS = {
         'level': 'proof',
         'trusted_base': COMMON_TB,
         'assumptions': [
+            "added after seeding round 6: generated prefixes may contain the character '1' (the separator is the last one); bech32data_after_other_chains asks CBech32Data for its verdict after the same and other texts were parsed under other chains",
             'added after seeding round 3: the bounded decode unit also draws (a) strings with one character outside the alphabet whose last six characters are solved so that the reference recurrence fed with the failed lookup (-1) still yields 1, (b) prefixes of up to 83 characters, so that valid checksums on strings longer than 90 characters occur (decode must refuse, encode must return None)',
             'bitwise xor on integers with overlapping bits is the uninterpreted function bxor - the same symbol in the '
             'code and in specs/bech32.py (exact when the operands provably occupy disjoint bits, evaluated when concrete); '
@@ -300,6 +307,7 @@ PROPS = {
         'level': 'proof',
         'trusted_base': COMMON_TB,
         'assumptions': [
+            'added after seeding round 6 (BOUNDED): every_tx_call_sends_full_hex (fundrawtransaction, signrawtransaction, signrawtransactionwithwallet, sendrawtransaction, submitblock post the full serialisation); method_errors_keep_their_class (error replies through ten Proxy methods: the class registered for the code, except the documented not-found translations)',
             'added after seeding round 3: the ASSUMED reply contract used for the id proof may also raise (JSONRPCError for a missing or non-JSON response, OSError for the transport), and the id postcondition is proved on those exits too; BOUNDED units hash_parameters_core_style (every hash argument of getrawtransaction incl. block_hash, gettxout, lockunspent; hashes in replies) and ids_increase_over_failures (call sequences with error / missing / non-JSON / absent replies)',
             'the injected HTTP connection does not touch the proxy object (stub class Conn in contracts/c19.py); '
             'json.dumps / json.loads are opaque; the reply of _get_response is one of the enumerated JSON object shapes '
